@@ -694,3 +694,86 @@ def r_kp_dimension(cx):
                   "the comment count as coordinate columns, and the whole batch is printed with more columns",
                   cx.where(t["span"]))
     cx.count("R-KP-DIMENSION", "dimension_sites", n + m)
+
+
+@rule("R-KP-WIDTH-MONOTONE", ["C20"])
+def r_kp_width_monotone(cx):
+    """kp estimates the output dimension from the widest input line seen so far, over all input files: the running
+    maximum handed to transform() is only ever updated as max(itself, width of the line) - inside the reading loops it
+    is never set to a constant (restarting the estimate per file prints the tuples still buffered from a wider file with
+    the columns of the narrower one)."""
+    import mir
+    f = kp_fn(cx, "main")
+    n = 0
+    if f is not None:
+        for bb, t in f.calls():
+            if _callee(f, t) != "transform":
+                continue
+            a = f.arg_terms(bb)
+            if len(a) < 3:
+                continue
+            w = mir.strip_refs(a[2])
+            n += 1
+            bad = []
+            seen = set()
+
+            def walk(y, depth=0):
+                y = mir.strip_refs(y)
+                if depth > 60:
+                    return
+                try:
+                    if y in seen:
+                        return
+                    seen.add(y)
+                except TypeError:
+                    return
+                if y[0] == "loopphi":
+                    d = f.phi_def(y)
+                    if d is not None and d[0] == "phi":
+                        preds = f.header_preds(y[1][0])
+                        for p, o in zip(preds, d[2]):
+                            # the value arrives from inside some reading loop (the loop itself or an enclosing one)
+                            inside = any(p in lp.body for lp in f.loops())
+                            o2 = mir.strip_refs(o)
+                            if inside and o2[0] == "const":
+                                bad.append(o2)
+                            else:
+                                walk(o, depth + 1)
+                elif y[0] == "phi":
+                    for o in y[2]:
+                        walk(o, depth + 1)
+                elif y[0] == "call" and isinstance(y[1], str) and y[1].rsplit("::", 1)[-1] == "max":
+                    for o in y[2]:
+                        walk(o, depth + 1)
+            walk(w)
+            ok = not bad
+            cx.ob("R-KP-WIDTH-MONOTONE", "main/transform%d" % (n - 1), ok,
+                  "the input width handed to transform is a running maximum over everything read" if ok else
+                  "kp main resets the input-width estimate to %s inside its reading loops: tuples buffered from an earlier, "
+                  "wider file are printed with the number of columns of a later, narrower one" % mir.show(bad[0], maxd=1),
+                  cx.where(t["span"]))
+    cx.count("R-KP-WIDTH-MONOTONE", "transform_calls", n)
+
+
+@rule("R-KP-NO-PREROUND", ["C20"])
+def r_kp_no_preround(cx):
+    """kp prints the coordinates the library computed, rounded by the formatter alone (`{:.N}` rounds the exact value,
+    ties to even). transform() does no rounding arithmetic of its own on the results (no round / floor / ceil / trunc on
+    f64 values): `(v * 10^d).round() / 10^d` before formatting rounds an inexact product half away from zero and prints
+    2.125 as 2.13."""
+    f = kp_fn(cx, "transform")
+    n = 0
+    bad = []
+    if f is not None:
+        for bb, t in f.calls():
+            c = f.callee(t) or ""
+            n += 1
+            if c.rsplit("::", 1)[-1] in ("round", "floor", "ceil", "trunc", "round_ties_even") and "f64" in c:
+                bad.append((c.rsplit("::", 1)[-1], t["span"]))
+    ok = f is not None and not bad
+    cx.ob("R-KP-NO-PREROUND", "transform", ok,
+          "transform() leaves rounding to the formatter" if ok else
+          "kp transform rounds the results arithmetically (%s) before formatting them: exact ties and values with many "
+          "decimals print differently from the library result" % (bad[0][0] if bad else "?"),
+          cx.where(bad[0][1]) if bad else "src/bin/kp.rs")
+    cx.count("R-KP-NO-PREROUND", "calls_scanned", n)
